@@ -134,22 +134,65 @@ def build_dir(case, root):
                 fh.write('%s %s\n' % (k, v))
 
 
+def _ask(reader, name, case):
+    from pysmi import error
+    try:
+        info, text = reader.getData(name)
+        return (info, text)
+    except error.PySmiReaderFileNotFoundError:
+        return None
+    except Exception as e:
+        raise Violation('reader-raised', '%r' % (e,), case)
+
+
 def file_prop(case, rec):
     from pysmi.reader.localfile import FileReader
-    from pysmi import error
     root = tempfile.mkdtemp(prefix='c14f')
     try:
         build_dir(case, root)
         reader = FileReader(root, recursive=case['recursive']).setOptions(**case['opts'])
-        name = case['request']
-        try:
-            info, text = reader.getData(name)
-            got = (info, text)
-        except error.PySmiReaderFileNotFoundError:
-            got = None
-        except Exception as e:
-            raise Violation('reader-raised', '%r' % (e,), case)
+        got = _ask(reader, case['request'], case)
         rec.evaluated()
+        _judge_file(case, root, got, rec)
+    finally:
+        shutil.rmtree(root, ignore_errors=True)
+
+
+@st.composite
+def tree_pairs(draw):
+    return {'a': draw(trees()), 'b': draw(trees()), 'order': draw(st.lists(st.sampled_from(('a', 'b')), min_size=2, max_size=4))}
+
+
+def pair_prop(case, rec):
+    """Two directory sources alive at the same time (as compile() holds them): each answers from its own directory,
+    its own .index and its own options, whatever the other one was asked before."""
+    from pysmi.reader.localfile import FileReader
+    roots = {}
+    try:
+        readers = {}
+        for k in ('a', 'b'):
+            roots[k] = tempfile.mkdtemp(prefix='c14p')
+            build_dir(case[k], roots[k])
+        for k in ('a', 'b'):
+            readers[k] = FileReader(roots[k], recursive=case[k]['recursive']).setOptions(**case[k]['opts'])
+        for k in case['order']:
+            got = _ask(readers[k], case[k]['request'], case)
+            rec.evaluated()
+            try:
+                _judge_file(case[k], roots[k], got, rec, sample=False)
+            except Violation as v:
+                raise Violation('second-reader:' + v.facet, 'reader %s of a pair, asked in the order %r: %s' % (k, case['order'], v.detail), case)
+        if case['a'].get('index') or case['b'].get('index'):
+            rec.count('pair.with-index')
+            rec.mark_nontrivial(digest(['pair', case]))
+    finally:
+        for r in roots.values():
+            shutil.rmtree(r, ignore_errors=True)
+
+
+def _judge_file(case, root, got, rec, sample=True):
+    name = case['request']
+    if True:
         # files visible to this reader
         visible = []
         for d, base, hexc, mtime in case['files']:
@@ -201,10 +244,9 @@ def file_prop(case, rec):
                 rec.mark_nontrivial(digest(case))
         if any(v[1] in DECOYS or (v[1] not in allowed and v[1].upper().startswith(name.upper()[:3])) for v in visible):
             rec.mark_nontrivial(digest(case))
-        rec.sample({'files': [f[:2] for f in case['files']], 'request': name, 'opts': case['opts'],
-                    'answer': None if got is None else got[0].file})
-    finally:
-        shutil.rmtree(root, ignore_errors=True)
+        if sample:
+            rec.sample({'files': [f[:2] for f in case['files']], 'request': name, 'opts': case['opts'],
+                        'answer': None if got is None else got[0].file})
 
 
 # ---------------------------------------------------------------------------
@@ -633,6 +675,7 @@ def probes(ctx):
 
 def run(ctx):
     ctx.search('dirs', trees, file_prop, ctx.pick(4000, 120000))
+    ctx.search('dir-pairs', tree_pairs, pair_prop, ctx.pick(1200, 40000))
     ctx.search('zips', trees, zip_prop, ctx.pick(2400, 80000))
     ctx.search('http', http_cases, http_prop, ctx.pick(2000, 40000))
     ctx.search('ziptrees', archive_trees, ziptree_prop, ctx.pick(1600, 50000))
@@ -650,6 +693,8 @@ def replay(ctx, data):
     s = data.get('search')
     if s == 'zips':
         zip_prop(case, rec)
+    elif s == 'dir-pairs':
+        pair_prop(case, rec)
     elif s == 'ziptrees':
         ziptree_prop(case, rec)
     elif s == 'urllists':
